@@ -161,6 +161,12 @@ def rand_str(rng, mode, minlen=0):
         s = "".join(rng.choice(CLEAN_ALPHA) for _ in range(max(n, minlen)))
         if rng.random() < 0.15 and s:
             s = rng.choice(["T", "c", "Tc", "c1", "T9", "ms", "g"]) + s[1:]   # marker look-alikes
+        q = rng.random()
+        if q < 0.12:
+            # whitespace and control characters at either end or inside (none is a DogStatsD delimiter): a trim, a
+            # line split or a C-string boundary somewhere on the way would show
+            w = rng.choice([" ", "  ", "\t", "\r", "\u00a0", "\u2028", "\u3000", "\0", "\x0b", "\x7f", " \t "])
+            s = rng.choice([s + w, w + s, s[:len(s) // 2] + w + s[len(s) // 2:], w])
         return s
     n = rng.choice([0, 1, 2, 3, 6]) if r < 0.9 else rng.randint(0, 300)
     return "".join(rng.choice(CLEAN_ALPHA + DELIMS * 3) for _ in range(n))
